@@ -350,6 +350,53 @@ def run(chk):
                 fcases = []
     run_fbatch(chk, hxf, mxf, fcases, ft)
 
+    # ---- clones: a MergingCursor over concrete (Clone) reference cursors is replaced by its clone at
+    # random points of the program, mostly while it travels backwards; a clone is the cursor, so the
+    # observations must be those of the same program without the clone steps (the model and the
+    # specification get that program)
+    crng = vlib.Rng(chk.seed * 1000003 + 1112)
+    cstats = G.new_stats()
+    ncl = 3000 if chk.tier == "quick" else 60000
+    clone_stats = {"cases": 0, "clone_steps": 0, "clones_while_backward": 0}
+    ccases, cimpl = [], []
+    for k in range(ncl):
+        es, pool = G.gen_entries(crng, cstats)
+        nt = crng.range(1, 5)
+        parts = G.split_scatter(crng, es, nt)
+        x = ("M", [("T", list(pt)) for pt in parts])
+        prog = G.gen_prog(crng, pool, es, cstats, maxlen=24)
+        dprog, back = [], False
+        for o in prog:
+            dprog.append(o)
+            if o in ("E", "V"):
+                back = True
+            elif o in ("F", "N") or isinstance(o, tuple):
+                back = False
+            if crng.chance(1, 3 if back else 8):
+                dprog.append("D")
+                clone_stats["clone_steps"] += 1
+                clone_stats["clones_while_backward"] += 1 if back else 0
+        ex = G.fmt_expr(x)
+        ccases.append((ex + " | " + G.fmt_prog(prog), G.ref_run(G.spec(x), prog), "clone%d" % k))
+        cimpl.append("K" + ex[1:] + " | " + " ".join("D" if o == "D" else G.fmt_prog([o]) for o in dprog))
+    clone_stats["cases"] = len(ccases)
+    rc1, c_impl_out = run_lines(hxbin, cimpl, chk.work, "impl_clone")
+    rc2, c_model_out = run_lines(mx, [c[0] for c in ccases], chk.work, "model_clone")
+    if len(c_impl_out) != len(ccases) or len(c_model_out) != len(ccases):
+        raise RuntimeError("clone stage: output line count mismatch impl=%d model=%d cases=%d" % (len(c_impl_out), len(c_model_out), len(ccases)))
+    for (line, exp, ctag), il, io, mo in zip(ccases, cimpl, c_impl_out, c_model_out):
+        mm = mo.partition(" # ")[0]
+        tally.n += 1
+        if io == exp and mm == exp:
+            continue
+        rec = {"tag": ctag, "case": il, "impl_out": io, "model_out": mm, "spec_out": exp, "case_without_clones": line}
+        if io != exp:
+            tally.nbad[0] += 1
+            tally.prop_bad.append(rec)
+        else:
+            tally.nbad[1] += 1
+            tally.corr_bad.append(rec)
+
     prop_bad, corr_bad, model_spec_bad = tally.prop_bad, tally.corr_bad, tally.model_spec_bad
     prop_bad = prop_bad + ft["prop_bad"]
     corr_bad = corr_bad + ft["corr_bad"]
@@ -368,6 +415,7 @@ def run(chk):
                 + "; plus ALL programs of length <= %d over {first,last,next,prev,seek a,seek b,seek bb} on %d fixed small families (shared keys across tables, tombstone-only and empty tables, a key split across adjacent tables, 42 bound combinations incl. empty and inverted, 9 pruning thresholds, lazy, one scan-shaped nesting)%s: exhaustive within that scope" % (maxlen, len(fams), (", %d of them up to length 6" % len(deep) if deep else ""))
                 + "; non-trivial = at least 3 calls and at least one non-None observation; distinct = distinct case lines (by hash)",
         "samples": samples,
+        "clone_stage": dict(clone_stats, rule="MergingCursor over 1..5 concrete reference cursors (scattered subsets of one entry family), programs of 1..24 calls in which the cursor is replaced by its clone() with probability 1/3 after a backward call and 1/8 otherwise; expected = the same program without the clone steps, on the specification and on the extracted model"),
         "input_distribution": dict(stats, kinds=kinds_hist, corpus_cases=ncorpus, exhaustive_cases=nexh),
         "exhaustive": False,
         "exhaustive_small_scope_cases": nexh,
